@@ -14,14 +14,17 @@ Definition crec_rec (c : crec) : rec := mkRec (c_addr c) (c_z c) (c_crc c) (nlen
 Inductive input :=
 | ITable (tables : list (list crec * list tuple)) (merged : list tuple) (probes : list addr) (pre : list bool)
 | ISearch (s : list N) (target : N)
-| IArchive (cs : list chunk) (prefixes suffixes : list N) (probes : list addr).
+| IArchive (cs : list chunk) (prefixes suffixes : list N) (probes : list addr)
+           (span_lens : list N) (refs : list aref)     (* staged span lengths; chunk ref per index position *)
+| IBig (n nabsent : N).      (* n generated chunks through the ArchiveStreamWriter (n > maxSamples: dictionary path); membership compared in Go *)
 
 Inductive obs :=
 | OTable (file : bytes) (count unc : N) (has : list bool) (get : list (option bytes))
          (hm : list bool) (hm_rem : bool)
          (gm : list chunk) (gm_flags : list bool) (gm_rem : bool) (iter : list chunk)
 | OSearch (r : N)
-| OArchive (count : N) (has : list bool) (get : list (option bytes)) (iter : list chunk)
+| OArchive (count : N) (has : list bool) (get : list (option bytes)) (iter : list chunk) (idx : bytes)
+| OBig (count nhas ngetok niter niterok nabsentok : N) (sorted : bool)
 | OFail (code : N).
 
 Definition case := (input * obs)%type.
@@ -74,7 +77,7 @@ Definition model_obs (i : input) : obs :=
     end
   | ISearch s target =>
     match prolly_bin_search s target with Some r => OSearch r | None => OFail 4 end
-  | IArchive cs prefixes suffixes probes =>
+  | IArchive cs prefixes suffixes probes span_lens refs =>
     match opt_list (map (fun h => match find_index prefixes suffixes h with
                                   | Some r => ROk r | None => RErrRead end) probes) with
     | None => OFail 5
@@ -82,7 +85,10 @@ Definition model_obs (i : input) : obs :=
       OArchive (nlenN prefixes) (map (fun o => match o with Some _ => true | None => false end) found)
                (map (fun ph => match snd ph with Some _ => chunk_get cs (fst ph) | None => None end) (combine probes found))
                (sort_chunks cs)
+               (* the index block as the writer lays it out (chunks in index order with their refs) *)
+               (archive_index_bytes span_lens (combine (combine prefixes suffixes) refs))
     end
+  | IBig n nabsent => OBig n n n n n nabsent true      (* every chunk written is read back, nothing else is *)
   end.
 
 Fixpoint bools_eqb (a b : list bool) : bool :=
@@ -97,7 +103,9 @@ Definition obs_eqb (a b : obs) : bool :=
     && bools_eqb hm hm' && Bool.eqb hr hr' && chunks_eqb gm gm' && bools_eqb gf gf' && Bool.eqb gr gr'
     && chunks_eqb it it'
   | OSearch r, OSearch r' => r =? r'
-  | OArchive c h g it, OArchive c' h' g' it' => (c =? c') && bools_eqb h h' && opts_eqb g g' && chunks_eqb it it'
+  | OArchive c h g it ix, OArchive c' h' g' it' ix' => (c =? c') && bools_eqb h h' && opts_eqb g g' && chunks_eqb it it' && beq_bytes ix ix'
+  | OBig a b c d e f g, OBig a' b' c' d' e' f' g' =>
+    (a =? a') && (b =? b') && (c =? c') && (d =? d') && (e =? e') && (f =? f') && Bool.eqb g g'
   | OFail x, OFail y => x =? y
   | _, _ => false
   end.
@@ -135,14 +143,23 @@ Definition oracle (i : input) (o : obs) : bool :=
                                             (combine probes pre)))
     && chunks_eqb iter (sort_chunks cs)
   | ISearch s target, OSearch r => negb (sorted_b s) || (r =? lower_bound s target)
-  | IArchive cs prefixes suffixes probes, OArchive count has get iter =>
+  | IArchive cs prefixes suffixes probes span_lens refs, OArchive count has get iter idx =>
     consistent_b cs
+    (* the index block parses back to the arrays the reader reported, refs point at staged spans *)
+    && (match parse_archive_index (nlen span_lens) (nlen prefixes) idx with
+        | Some ai => addrs_eqb (combine (ai_prefixes ai) (ai_suffixes ai)) (combine prefixes suffixes)
+                     && addrs_eqb (ai_refs ai) refs
+                     && forallb (fun r : aref => (1 <=? snd r) && (snd r <=? nlen span_lens) && (fst r <=? nlen span_lens)) refs
+        | None => false
+        end)
     (* archive index: chunks sorted by full address *)
     && addrs_eqb (combine prefixes suffixes) (sort_addrs (map fst cs))
     && (count =? nlen cs)
     && bools_eqb has (map (present_b cs) probes)
     && opts_eqb get (map (chunk_get cs) probes)
     && chunks_eqb iter (sort_chunks cs)
+  | IBig n nabsent, OBig count nhas ngetok niter niterok nabsentok sorted =>
+    (count =? n) && (nhas =? n) && (ngetok =? n) && (niter =? n) && (niterok =? n) && (nabsentok =? nabsent) && sorted
   | _, _ => false
   end.
 
